@@ -415,6 +415,33 @@ func genC09Op(rt *rapid.T, nm *hx.NodeMachine, cfg genCfg) hx.NOp {
 			maxT = cu[0].Amount.Int64()
 		}
 		spec.Prog = genC09Prog(rt, cfg.Keys, canTransfer, maxT)
+		// several contract transfers in ONE transaction (round-7 change C09-k: the replay's cursor over the declared
+		// contract inputs goes wrong from the third selection on): when the contract owns k >= 3 EQUAL unfrozen outputs,
+		// k transfers of exactly that amount consume all of them whichever output each selection takes first
+		if len(cu) >= 3 && rapid.IntRange(0, 1).Draw(rt, "multixfer") == 0 {
+			equal := true
+			for _, u := range cu {
+				equal = equal && u.Frozen == 0 && u.Amount.Cmp(cu[0].Amount) == 0
+			}
+			if equal {
+				spec.Prog = drawProg(rt, cfg.Keys, 0)
+				for range cu {
+					spec.Prog = append(spec.Prog, hx.Ins{Op: "transfer", To: hx.Ring[rapid.IntRange(0, 5).Draw(rt, "mxferto")].Address, Amt: cu[0].Amount.Int64()})
+				}
+			}
+		}
+		if len(cu) == 0 && total.Cmp(big.NewInt(1000)) > 0 && rapid.IntRange(0, 3).Draw(rt, "fundmany") == 0 {
+			// a plain payment of 3-5 equal outputs to the contract's address
+			k := rapid.IntRange(3, 5).Draw(rt, "fundk")
+			a := int64(rapid.IntRange(5, 40).Draw(rt, "funda"))
+			spec.Prog = nil
+			for i := 0; i < k; i++ {
+				spec.Outs = append(spec.Outs, hx.OutSpec{To: -2, ToS: hx.VerifContract, Amount: fmt.Sprint(a)})
+				total.Sub(total, big.NewInt(a))
+			}
+			spec.Outs = append(spec.Outs, hx.OutSpec{To: spec.From, Amount: total.String()})
+			return hx.NOp{Op: "tx", Tx: &spec}
+		}
 		if len(cu) == 0 && total.Cmp(big.NewInt(1000)) > 0 && rapid.IntRange(0, 2).Draw(rt, "fund") == 0 {
 			spec.ConAmt = int64(rapid.IntRange(1, 300).Draw(rt, "conamt"))
 			spec.Outs = append(spec.Outs, hx.OutSpec{To: -2, ToS: hx.VerifContract, Amount: fmt.Sprint(spec.ConAmt)})
